@@ -312,3 +312,91 @@ theorem foldl_reqStep_spec : ∀ (ks : List Nat) (v : Valet), ks.Nodup → v.rai
     · by_cases hm : ca ∈ ks <;> simp [hm, hck, h6 ca hck]
 
 end Ioflo.Http
+
+namespace Ioflo.Http
+
+/-! ### `serviceReps`, `drain`, `serviceAll` keep the table safe and do not raise -/
+
+/-- what a service method needs and keeps: nothing raised, safe parsers, distinct keys -/
+def TableOk (v : Valet) : Prop := v.raised = false ∧ AllSafe v.conns ∧ (keysOf v.conns).Nodup
+
+theorem repStepConn_req {c c' : Conn} (hc : repStepConn c = some c') :
+    c'.req = c.req ∨ c'.req = makeParser c.req := by
+  unfold repStepConn at hc
+  cases hrep : c.rep with
+  | none => simp [hrep] at hc; subst hc; exact Or.inl rfl
+  | some ended =>
+    simp only [hrep] at hc
+    cases ended <;> by_cases hp : c.req.core.persisted = some true <;>
+      by_cases hg : c.req.core.gen = .none <;> by_cases ht : c.txPending = true <;>
+      simp [hp, hg, ht] at hc <;> (try subst hc) <;> simp
+
+theorem repStepConn_safe {c c' : Conn} (h : Safe c.req.core) (hc : repStepConn c = some c') :
+    Safe c'.req.core := by
+  rcases repStepConn_req hc with e | e <;> rw [e]
+  · exact h
+  · exact safe_makeParser h
+
+theorem repStep_ok {v : Valet} (h : TableOk v) (ca : Nat) : TableOk (v.repStep ca) := by
+  obtain ⟨hr, hs, hn⟩ := h
+  unfold Valet.repStep
+  simp only [hr, Bool.false_eq_true, if_false]
+  cases hl : lookup ca v.conns with
+  | none => exact ⟨hr, hs, hn⟩
+  | some c =>
+    simp only []
+    cases hc : repStepConn c with
+    | some c' =>
+      refine ⟨by simp, ?_, by simp only []; rw [keysOf_setConn]; exact hn⟩
+      intro k ck hk
+      simp only [] at hk
+      by_cases hkc : k = ca
+      · subst hkc
+        rw [lookup_setConn_eq c' v.conns (by simp [hl])] at hk
+        simp at hk; subst hk; exact repStepConn_safe (hs k c hl) hc
+      · rw [lookup_setConn_ne hkc] at hk; exact hs k ck hk
+    | none =>
+      refine ⟨by simp, ?_, (keysOf_erase_sublist ca v.conns).nodup hn⟩
+      intro k ck hk
+      simp only [] at hk
+      by_cases hkc : k = ca
+      · subst hkc; rw [lookup_erase_eq v.conns hn] at hk; simp at hk
+      · rw [lookup_erase_ne hkc] at hk; exact hs k ck hk
+
+theorem foldl_repStep_ok (ks : List Nat) (v : Valet) (h : TableOk v) : TableOk (ks.foldl Valet.repStep v) := by
+  induction ks generalizing v with
+  | nil => exact h
+  | cons k ks ih => exact ih _ (repStep_ok h k)
+
+theorem lookup_map_tx (ca : Nat) (l : List (Nat × Conn)) :
+    lookup ca (l.map (fun p => (p.1, { p.2 with txPending := false }))) =
+      (lookup ca l).map (fun c => { c with txPending := false }) := by
+  induction l with
+  | nil => rfl
+  | cons p l ih =>
+    obtain ⟨k, c⟩ := p
+    by_cases hk : k = ca <;> simp [lookup, hk, ih]
+
+theorem drain_ok {v : Valet} (h : TableOk v) : TableOk v.drain := by
+  obtain ⟨hr, hs, hn⟩ := h
+  unfold Valet.drain
+  simp only [hr, Bool.false_eq_true, if_false]
+  refine ⟨by simp, ?_, ?_⟩
+  · intro k c hk
+    simp only [] at hk
+    rw [lookup_map_tx] at hk
+    cases hl : lookup k v.conns with
+    | none => simp [hl] at hk
+    | some c0 => simp [hl] at hk; subst hk; exact hs k c0 hl
+  · simpa [keysOf, List.map_map, Function.comp_def] using hn
+
+theorem serviceReqs_ok {v : Valet} (h : TableOk v) : TableOk v.serviceReqs := by
+  obtain ⟨hr, hs, hn⟩ := h
+  obtain ⟨h1, h2, h3, _⟩ := foldl_reqStep_spec (keysOf v.conns) v hn hr hs hn
+  exact ⟨h1, h2, h3⟩
+
+theorem serviceAll_ok {v : Valet} (h : TableOk v) : TableOk v.serviceAll := by
+  unfold Valet.serviceAll Valet.serviceReps
+  exact drain_ok (foldl_repStep_ok _ _ (serviceReqs_ok h))
+
+end Ioflo.Http
